@@ -70,6 +70,9 @@ impl GC {
             return;
         }
 
+        #[cfg(feature = "verif")]
+        crate::verif::gc(crate::verif::GcEvent::RunBegin, self);
+
         self.mark_bitmap.clear();
 
         // Mark all reachable objects
@@ -81,6 +84,15 @@ impl GC {
 
         // Sweep all unreachable objects
         self.sweep();
+
+        #[cfg(feature = "verif")]
+        crate::verif::gc(crate::verif::GcEvent::RunEnd, self);
+    }
+
+    /// The objects currently managed by this collector, for the verification seams
+    #[cfg(feature = "verif")]
+    pub fn verif_objects(&self) -> &[Object] {
+        &self.objects
     }
 
     /// Sweep all unmarked objects
@@ -138,6 +150,9 @@ impl GC {
 /// Implement Drop trait so that GC::destroy() is automatically called once the Garbage Collector goes out of scope
 impl Drop for GC {
     fn drop(&mut self) {
+        #[cfg(feature = "verif")]
+        crate::verif::gc(crate::verif::GcEvent::Drop, self);
+
         self.destroy();
     }
 }
